@@ -312,7 +312,7 @@ func c12Worker(w *W) {
 		}
 		// expectations per sink
 		expected := map[string]map[string]c12snap{} // sink -> id -> snapshot
-		expOrder := map[string]map[int][]string{}  // sink -> writer -> ids in call order
+		expOrder := map[string]map[int][]string{}   // sink -> writer -> ids in call order
 		for wi := range sents {
 			for _, s := range sents[wi] {
 				for _, sk := range lgs[s.name].Sinks {
